@@ -74,4 +74,131 @@ theorem run_prefix (f rbp bb : Nat) (t h : Tok) (ts' : List Tok) (v nxn : Node) 
   simp only [pure]
   exact hl
 
+/-- **One infix step of the loop** (`ldInfix`): in front of an infix operator that binds tighter than `rbp`, if the
+    tokens of the right operand are read back as `right` with the operator's binding, the loop continues with
+    the node `op(left, right)`. (Continuation form: `res` is whatever the rest of the loop returns.) -/
+theorem loopLed_infix (f rbp bb : Nat) (left : Node) (o h : Tok) (ts' : List Tok) (right nxn : Node)
+    (rest : List Tok) (res : Res Node) (hh : Real h)
+    (hled : (nodeOf bb o).led ≠ Led.none) (hb : rbp < (nodeOf bb o).binding)
+    (hole : run f (nodeOf bb o).binding (st bb (nodeOf bb h) ts') = .ok right (st bb nxn rest))
+    (hk : loopLed f rbp (((nodeOf bb o).add (some left)).add (some right)) (st bb nxn rest) = res) :
+    loopLed (f+1) rbp left (st bb (nodeOf bb o) (h :: ts')) = res := by
+  rw [loopLed, bind_def]
+  simp only [cur]
+  rw [if_pos hb, if_neg hled, bind_def, advance_real bb _ h ts' hh]
+  simp only [addMeta_nil]
+  rw [bind_def, hole]
+  exact hk
+
+theorem tokOf_some (n : Node) (t : Tok) (p : P) (h : n.tok = some t) : tokOf n p = .ok t p := by
+  simp [tokOf, h]
+
+theorem curId_st (bb : Nat) (c : Node) (t : Tok) (ts : List Tok) (h : c.tok = some t) :
+    curId (st bb c ts) = .ok t.id (st bb c ts) := by
+  unfold curId
+  rw [bind_def]
+  have : cur (st bb c ts) = .ok c (st bb c ts) := rfl
+  rw [this]
+  simp only
+  rw [bind_def, tokOf_some c t _ h]
+  rfl
+
+/-- **A terminal that is an identifier** (`ndIdentifier` without segment, call or access): followed by a token that
+    is neither `.`, `(` nor `[` and does not bind tighter than `rbp`. -/
+theorem run_identifier (f rbp bb : Nat) (t nx : Tok) (rest : List Tok) (hn : Real nx)
+    (hid : (nodeOf bb t).nud = .identifier) (htok : (nodeOf bb t).tok = some t)
+    (hnt : (nodeOf bb nx).tok = some nx)
+    (h1 : nx.id ≠ T_DOT) (h2 : nx.id ≠ T_LPAREN) (h3 : nx.id ≠ T_LBRACK)
+    (hb : (nodeOf bb nx).binding ≤ rbp) :
+    run (f+3) rbp (st bb (nodeOf bb t) (nx :: rest)) = .ok (nodeOf bb t) (st bb (nodeOf bb nx) rest) := by
+  have hl := loopLed_stop (f+1) rbp bb (nodeOf bb t) (nodeOf bb nx) rest hb
+  have e : ((nodeOf bb t).addMeta []).nud = Nud.identifier := by rw [addMeta_nil]; exact hid
+  have hne : ¬ (((nodeOf bb t).addMeta []).nud = Nud.none) := by rw [e]; simp
+  rw [run, bind_def]
+  simp only [getP]
+  rw [bind_def, advance_real bb _ nx rest hn]
+  simp only [if_neg hne]
+  rw [bind_def, nudOf, e]
+  simp only [addMeta_nil]
+  rw [parseMore, bind_def, curId_st bb _ nx rest hnt]
+  simp only [h1, h2, if_false]
+  rw [bind_def]
+  have hc : cur (st bb (nodeOf bb nx) rest) = .ok (nodeOf bb nx) (st bb (nodeOf bb nx) rest) := rfl
+  rw [hc]
+  simp only
+  rw [bind_def, tokOf_some _ nx _ hnt]
+  simp only
+  rw [bind_def, tokOf_some _ t _ htok]
+  simp only [h3, false_and, if_false, pure_def]
+  exact hl
+
+theorem skipToken_st (bb : Nat) (ids : List Nat) (c : Node) (t nx : Tok) (rest : List Tok)
+    (hc : c.tok = some t) (hin : ids.contains t.id = true) (hn : Real nx) :
+    skipToken ids (st bb c (nx :: rest)) = .ok () (st bb (nodeOf bb nx) rest) := by
+  unfold skipToken
+  rw [bind_def]
+  have h0 : cur (st bb c (nx :: rest)) = .ok c (st bb c (nx :: rest)) := rfl
+  rw [h0]
+  simp only
+  rw [bind_def, tokOf_some c t _ hc]
+  simp only [hin, Bool.not_true, Bool.false_eq_true, if_false]
+  rw [bind_def, advance_real bb _ nx rest hn]
+  rfl
+
+/-- **Parentheses** (`ndInner`): `(` hole `)`: if the hole's tokens are read back as `e` with right binding 0 and
+    the parser then stands at `)`, the parenthesised text is read back as `e` itself (no node for the brackets) and
+    the loop continues behind the `)`. (Continuation form.) -/
+theorem run_inner (f rbp bb : Nat) (lp h rp nx : Tok) (ts' rest : List Tok) (e : Node) (res : Res Node)
+    (hh : Real h) (hn : Real nx) (hnud : (nodeOf bb lp).nud = .inner)
+    (hrp : (nodeOf bb rp).tok = some rp) (hrpid : rp.id = T_RPAREN)
+    (hole : run f 0 (st bb (nodeOf bb h) ts') = .ok e (st bb (nodeOf bb rp) (nx :: rest)))
+    (hk : loopLed (f+1) rbp e (st bb (nodeOf bb nx) rest) = res) :
+    run (f+2) rbp (st bb (nodeOf bb lp) (h :: ts')) = res := by
+  have e1 : ((nodeOf bb lp).addMeta []).nud = Nud.inner := by rw [addMeta_nil]; exact hnud
+  have hne : ¬ (((nodeOf bb lp).addMeta []).nud = Nud.none) := by rw [e1]; simp
+  rw [run, bind_def]
+  simp only [getP]
+  rw [bind_def, advance_real bb _ h ts' hh]
+  simp only [if_neg hne]
+  rw [bind_def, nudOf, e1]
+  simp only
+  rw [bind_def, hole]
+  simp only
+  rw [bind_def, skipToken_st bb [T_RPAREN] _ rp nx rest hrp (by simp [hrpid]) hn]
+  simp only [pure_def]
+  exact hk
+
+/-- terminal, continuation form -/
+theorem run_term_k (f rbp bb : Nat) (t nx : Tok) (rest : List Tok) (res : Res Node) (hn : Real nx)
+    (hterm : (nodeOf bb t).nud = .term)
+    (hk : loopLed (f+1) rbp (nodeOf bb t) (st bb (nodeOf bb nx) rest) = res) :
+    run (f+2) rbp (st bb (nodeOf bb t) (nx :: rest)) = res := by
+  have e : ((nodeOf bb t).addMeta []).nud = Nud.term := by rw [addMeta_nil]; exact hterm
+  have hne : ¬ (((nodeOf bb t).addMeta []).nud = Nud.none) := by rw [e]; simp
+  rw [run, bind_def]
+  simp only [getP]
+  rw [bind_def, advance_real bb _ nx rest hn]
+  simp only [if_neg hne]
+  rw [bind_def, nudOf, e]
+  simp only [pure, addMeta_nil]
+  exact hk
+
+/-- keyword + operand, continuation form -/
+theorem run_prefix_k (f rbp bb : Nat) (t h : Tok) (ts' : List Tok) (v nxn : Node) (rest : List Tok) (res : Res Node)
+    (hh : Real h) (hpre : (nodeOf bb t).nud = .prefix)
+    (hole : run (f+1) ((nodeOf bb t).binding + 20) (st bb (nodeOf bb h) ts') = .ok v (st bb nxn rest))
+    (hk : loopLed (f+2) rbp ((nodeOf bb t).add (some v)) (st bb nxn rest) = res) :
+    run (f+3) rbp (st bb (nodeOf bb t) (h :: ts')) = res := by
+  have e : ((nodeOf bb t).addMeta []).nud = Nud.prefix := by rw [addMeta_nil]; exact hpre
+  have hne : ¬ (((nodeOf bb t).addMeta []).nud = Nud.none) := by rw [e]; simp
+  rw [run, bind_def]
+  simp only [getP]
+  rw [bind_def, advance_real bb _ h ts' hh]
+  simp only [if_neg hne]
+  rw [bind_def, nudOf, e]
+  simp only [addMeta_nil]
+  rw [bind_def, hole]
+  simp only [pure]
+  exact hk
+
 end Ecal.C08.TP
